@@ -1030,6 +1030,22 @@ def edit_run(seq, variant, verbose=False):
     nontrivial = False
     for step, (mode, k) in enumerate(seq):
         last = step == len(seq) - 1
+        if mode == 'Fresh':
+            # a group created empty (default state) and picked as the subset to edit - what "new subset" in the
+            # application does before the first region is drawn
+            try:
+                g = w.dc.new_subset_group()
+                w.esm.edit_subset = [g]
+            except Exception as e:      # noqa
+                fails.append(('edit-raises', '%s: %r' % (type(e).__name__, e), 'no exception'))
+                break
+            groups.append([freeze(np.zeros(ds.shape, dtype=bool), ds) for ds in w.datasets])
+            edit = len(groups) - 1
+            if variant == 'every' or last:
+                fails += edit_check(w, groups, edit, twins)
+                if fails:
+                    break
+            continue
         w.esm.mode = w.modes[mode]
         try:
             w.esm.update(w.dc, w.states[k])
@@ -1153,7 +1169,7 @@ def edit_minimise(seq, variant, clause):
 def edit_cases(tier):
     """Shards: ['edit', length, variant, first op, second op or None]; the worker enumerates the rest."""
     lmax = 3 if tier == 'quick' else 4
-    ops = [[m, k] for m in MODES for k in range(NSTATES)]
+    ops = [[m, k] for m in MODES for k in range(NSTATES)] + [['Fresh', 0]]
     out = []
     for variant in EDIT_VARIANTS:
         for n in range(1, lmax + 1):
@@ -1168,7 +1184,7 @@ def edit_cases(tier):
 
 def do_edit(res, case):
     _, n, variant, head = case
-    ops = [[m, k] for m in MODES for k in range(NSTATES)]
+    ops = [[m, k] for m in MODES for k in range(NSTATES)] + [['Fresh', 0]]
     for tail in itertools.product(ops, repeat=n - len(head)):
         seq = [list(x) for x in head] + [list(x) for x in tail]
         fails, nontrivial = edit_run(seq, variant)
